@@ -259,4 +259,23 @@ def check(ctx: Ctx) -> str:
     from . import c29
 
     ctx.run_imported("C29", {"R1"}, c29.check)
+    ctx.rule("R4", "no compilation state shared between compilations: a class of the compile path does not bind a mutable container at class level that its methods fill through self")
+    MUT = {"add", "append", "update", "extend", "insert", "setdefault", "appendleft"}
+    n_cls = 0
+    for mod in ("compiler", "idtracking", "optimizer", "visitor", "parser", "lexer", "meta"):
+        for ci in repo.classes(mod):
+            n_cls += 1
+            for name, val in ci.assigns.items():
+                fresh_ = isinstance(val, (ast.Set, ast.List, ast.Dict, ast.ListComp, ast.SetComp, ast.DictComp)) or (isinstance(val, ast.Call) and astq.callee(val) in ("set", "list", "dict", "deque", "collections.deque", "defaultdict"))
+                if not fresh_:
+                    continue
+                inits = {ast.unparse(t_) for fn in ci.methods.values() for a in ast.walk(fn) if isinstance(a, (ast.Assign, ast.AnnAssign)) for t_ in (a.targets if isinstance(a, ast.Assign) else [a.target])}
+                muts = [c for fn in ci.methods.values() for c in astq.calls(fn) if isinstance(c.func, ast.Attribute) and c.func.attr in MUT and ast.unparse(c.func.value) == f"self.{name}"]
+                muts += [s_ for fn in ci.methods.values() for s_ in ast.walk(fn) if isinstance(s_, ast.Subscript) and isinstance(s_.ctx, ast.Store) and ast.unparse(s_.value) == f"self.{name}"]
+                shared_ = bool(muts) and f"self.{name}" not in inits
+                ctx.check(not shared_, f"class-state:{mod}:{ci.name}.{name}", f"{mod}:{ci.name}", f"class-level container `{name}` is filled through self" if shared_ else "not shared",
+                          f"{mod}.{ci.name}.{name} is one container for the whole process (bound in the class body, never per instance) and methods add to it through self: what one compilation collects leaks into the next, so the generated source of a template depends on which templates were compiled before it",
+                          ci.loc())
+    ctx.floor("classes of the compile path", n_cls, 20)
+
     return __doc__ or ""
